@@ -761,7 +761,8 @@ func TestVerifC20(t *testing.T) {
 	verifkit.Gate(t)
 	res := verifkit.NewResult()
 	defer res.Write(t)
-	tr := verifkit.NewTrace()
+	nfiles := verifkit.EnvInt("VERIF_NFILES", 1)
+	trs := make([]*verifkit.Trace, nfiles)
 	chars := map[string][]int{}
 	addName := func(n string) {
 		c := []int{}
@@ -783,13 +784,16 @@ func TestVerifC20(t *testing.T) {
 			}
 		}
 	}
-	tr.Emit("Chars", "chars", chars)
+	for i := range trs {
+		trs[i] = verifkit.NewTrace()
+		trs[i].Emit("Chars", "chars", chars)
+	}
 	fail := func(ops []verifC20Op, f *verifC20Fail, kind string) {
 		res.Mismatch(verifkit.Mismatch{Beh: verifC20Describe(ops), Step: f.step, Want: "property C20 holds (" + kind + ")", Got: f.what, Sig: f.sig})
 	}
 	for i, b := range behs {
 		ops := verifC20OpsOf(b)
-		f := verifC20Run(tr, ops, false, verifkit.Seed()*1000+int64(i))
+		f := verifC20Run(trs[i%nfiles], ops, false, verifkit.Seed()*1000+int64(i))
 		if f != nil {
 			fail(ops, f, "TLC behaviour")
 		}
@@ -802,7 +806,7 @@ func TestVerifC20(t *testing.T) {
 	for n := 0; n < nrand; n++ {
 		big := n%10 == 9
 		ops := verifC20Random(r.Intn, big)
-		f := verifC20Run(tr, ops, big, verifkit.Seed()*1000+int64(n))
+		f := verifC20Run(trs[n%nfiles], ops, big, verifkit.Seed()*1000+int64(n))
 		if f != nil {
 			fail(ops, f, "random history")
 		}
@@ -810,17 +814,20 @@ func TestVerifC20(t *testing.T) {
 		res.Steps += len(ops)
 		res.Count("random", 1)
 	}
-	out := filepath.Join(verifkit.TmpDir(t, "c20-"), "trace.ndjson")
-	if err := tr.WriteFile(out); err != nil {
-		t.Fatal(err)
+	dir := verifkit.TmpDir(t, "c20-")
+	for i, tr := range trs {
+		out := filepath.Join(dir, fmt.Sprintf("trace%d.ndjson", i))
+		if err := tr.WriteFile(out); err != nil {
+			t.Fatal(err)
+		}
+		res.Files = append(res.Files, out)
+		res.Counters["trace_events"] += tr.Len()
 	}
-	res.Files = append(res.Files, out)
-	res.Counters["trace_events"] = tr.Len()
 	res.Consts["MaxJournalItemsSent"] = data_model.MaxJournalItemsSent
 	res.Consts["MaxJournalBytesSent"] = data_model.MaxJournalBytesSent
 	res.Consts["ChunkSize"] = data_model.ChunkSize
 	res.Consts["BuiltinGroupIDDefault"] = format.BuiltinGroupIDDefault
-	evs := tr.Events()
+	evs := trs[0].Events()
 	for i := 1; i < len(evs) && i < 8; i++ {
 		res.Sample(evs[i])
 	}
